@@ -1,7 +1,7 @@
 (* C17 correspondence: operation sequences run on the real filesystems by
    harness/cmd/c17, replayed through the model (mismatch:...) and judged step
    by step against the reference (viol:<corner>). *)
-From Apko Require Export Base.Prelude Model.MemFS Spec.FsSpec Model.DirFS.
+From Apko Require Export Base.Prelude Model.MemFS Spec.FsSpec Model.DirFS Model.SubFS.
 Open Scope string_scope. Open Scope list_scope.
 
 Definition mtime_match (a b : option Z) : bool :=
@@ -108,6 +108,18 @@ Definition dir_corner (s : st) (o : op) : option string :=
   | Link old _ =>
       if eres_nat_eqb (s_lnode (heap s) old) (s_node (heap s) old) then None
       else Some "dirfs-link-oldname-symlink-not-followed-on-disk"
+  | Readnod p =>
+      (* dirFS.Readnod asks os.Stat first, which follows a final symbolic link (a dangling one: ENOENT);
+         the overlay's Readnod, like the reference, looks at the entry itself (C17-F23) *)
+      if eres_nat_eqb (s_lnode (heap s) p) (s_node (heap s) p) then None
+      else Some "dirfs-readnod-stat-follows-symlink"
+  | Mknod p _ _ =>
+      (* unix.Mknod fails on an existing name and dirFS then calls os.WriteFile(name, nil, 0):
+         the error is WriteFile's, and an existing regular file is truncated (C17-F20) *)
+      match s_leaf (heap s) p with
+      | inl (_, _, Some _) => Some "dirfs-mknod-fallback-writefile-on-existing-name"
+      | _ => None
+      end
   | _ => None
   end.
 Definition on_dir_handle (s : st) (o : op) : bool :=
@@ -115,6 +127,16 @@ Definition on_dir_handle (s : st) (o : op) : bool :=
   | Read i _ | ReadAt i _ _ | Write i _ | Seek i _ _ =>
       match nth_error (handles s) i with Some hd => h_open hd && is_dir (heap s) (h_ino hd) | None => false end
   | _ => false
+  end.
+
+(* link(2) looks the old name up before the new one, the reference the new name's directory first:
+   when BOTH fail, which error is reported is not part of the property; the host's answer (the old
+   name's error) is accepted as well (nothing changes either way) *)
+Definition link_err_order (s : st) (o : op) (sr r : out) : bool :=
+  match o, r with
+  | Link old _, OErr e =>
+      is_failure sr && match s_lnode (heap s) old with inr e1 => eclass_eqb e e1 | inl _ => false end
+  | _, _ => false
   end.
 
 (* The hidden state of dirFS (overlay + disk) is known only while every step
@@ -130,7 +152,7 @@ Fixpoint check_dir_steps (s : st) (ops : list op) (obs : list out) : list string
       match (match dir_corner s o with Some t => Some t | None => corner MemFS s o end) with
       | Some t => if out_match sr r then [] else [String.append "viol:" t]
       | None =>
-          if out_match sr r then check_dir_steps s1 ops' obs'
+          if out_match sr r || link_err_order s o sr r then check_dir_steps s1 ops' obs'
           else if dir_lstat_size0 o sr r then "viol:dirfs-lstat-size-from-overlay" :: check_dir_steps s1 ops' obs'
           else ["viol:dirfs-diverges-inside-envelope"]
       end
@@ -141,13 +163,33 @@ Fixpoint check_dir_steps (s : st) (ops : list op) (obs : list out) : list string
    the memFS model, host = the reference): every step of the whole sequence is
    compared, inside the envelope or not — the model knows how overlay and host
    drift apart (C17-F19 included: the host's link(2) is modelled as it is). *)
+(* Remove of a name that filepath.Join turns into the base directory itself (".", "/"), when the
+   overlay holds an entry of that name (made by an un-normalised create) and the base directory is
+   empty: os.Remove(base) removes the base directory.  What dirFS answers afterwards is outside the
+   model (Model/DirFS.v says so): the step must succeed and the comparison ends there. *)
+Definition base_removed (d : dst) (o : op) : bool :=
+  match o with
+  | Remove p => is_root_path (hp p) && negb (nonempty (n_children (get (heap (d_host d)) 0))) &&
+                negb (is_failure (snd (ov_step (d_ov d) o)))
+  | _ => false
+  end.
+
 Fixpoint check_dirm_steps (d : dst) (ops : list op) (obs : list out) : list string :=
   match ops, obs with
   | [], [] => []
   | o :: ops', r :: obs' =>
       let '(d1, mr) := dirfs_step d o in
+      (* a Mknod that reports failure and, by the model the observation agrees with, changed the host
+         (the fallback os.WriteFile(name, nil, 0) truncated an existing file): the later reads of the
+         sequence are compared with that model, so the truncation is an observed fact *)
+      let vt := match o with
+                | Mknod _ _ _ => if is_failure mr && out_match mr r && negb (st_eqb (d_host d1) (d_host d))
+                                 then ["viol:dirfs-mknod-fallback-writefile-on-existing-name"] else []
+                | _ => []
+                end in
       if on_dir_handle (d_host d) o then check_dirm_steps d1 ops' obs'
-      else if out_match mr r then check_dirm_steps d1 ops' obs'
+      else if base_removed d o then (if out_match OOk r then [] else [String.append "mismatch:dirfs-" (op_name o)])
+      else if out_match mr r then vt ++ check_dirm_steps d1 ops' obs'
       else [String.append "mismatch:dirfs-" (op_name o)]
   | _, _ => ["mismatch:observation-count"]
   end.
@@ -158,14 +200,64 @@ Fixpoint dedup (l : list string) : list string :=
   | x :: l' => if str_in x l' then dedup l' else x :: dedup l'
   end.
 
-Inductive target := TMem | TTar | TDir.
-Record fs_case := { c_target : target; c_ops : list op; c_obs : list out }.
+(* ---- the sub-filesystem view (Model/SubFS.v) -----------------------------------------------------
+   A case runs on one in-memory backend; each operation goes either to the parent
+   directly or through SubFS{FS: parent, Root: root} ([via] = true).  Every step is
+   compared with the model (the parent's model on [sub_op root o]).  The observed
+   result and the state the model leaves are judged against the reference step of
+   the operation the view STANDS FOR: the operation at root/name ([at_root], for
+   names without ".."; Symlink and Link included).  Tags:
+   - subfs-dotdot-escapes-root: a name with ".." whose joined path is not under the
+     root, and the operation succeeded there;
+   - subfs-symlink-link-not-joined: Symlink / Link through the view differ from the
+     reference at root/name while they agree with the reference at the name as given;
+   - otherwise the corner of the parent's operation, as for plain cases. *)
+Fixpoint prefixb (a b : path) : bool :=
+  match a, b with
+  | [], _ => true
+  | x :: a', y :: b' => String.eqb x y && prefixb a' b'
+  | _ :: _, [] => false
+  end.
+Definition all_paths (o : op) : list path :=
+  match o with
+  | Link old new => [old; new]
+  | Symlink _ p => [p]
+  | o => sub_paths o
+  end.
+Definition dotdot_in (o : op) : bool := negb (forallb no_dotdot (all_paths o)).
+Definition escapes (root : path) (o' : op) : bool := negb (forallb (prefixb root) (all_paths o')).
+Definition unjoined (o : op) : bool := match o with Symlink _ _ | Link _ _ => true | _ => false end.
+
+Fixpoint check_sub_steps (b : backend) (root : path) (s : st) (ops : list op) (vias : list bool) (obs : list out) : list string :=
+  match ops, vias, obs with
+  | [], [], [] => []
+  | o :: ops', v :: vias', r :: obs' =>
+      let o' := if v then sub_op root o else o in
+      let '(s1, mr) := model_step b s o' in
+      let oi := if v && negb (dotdot_in o) then at_root root o else o' in
+      let '(s1', sr) := spec_step s oi in
+      let '(s1'', sr') := spec_step s o' in
+      let vt :=
+        if v && dotdot_in o && escapes root o' then
+          (if is_failure r then [] else ["viol:subfs-dotdot-escapes-root"])
+        else if out_match sr r && st_eqb s1 s1' then []
+        else if v && unjoined o && out_match sr' r && st_eqb s1 s1'' then ["viol:subfs-symlink-link-not-joined"]
+        else [String.append "viol:" (viol_tag b s o' sr' r)] in
+      if out_match mr r then vt ++ check_sub_steps b root s1 ops' vias' obs'
+      else vt ++ [String.append "mismatch:subfs-" (op_name o)]
+  | _, _, _ => ["mismatch:observation-count"]
+  end.
+
+Inductive target := TMem | TTar | TDir | TSubMem | TSubTar.
+Record fs_case := { c_target : target; c_ops : list op; c_obs : list out; c_root : path; c_via : list bool }.
 
 Definition check_case (c : fs_case) : list string :=
   dedup (match c_target c with
          | TMem => check_steps MemFS init_st (c_ops c) (c_obs c)
          | TTar => check_steps TarFS init_st (c_ops c) (c_obs c)
          | TDir => check_dir_steps init_st (c_ops c) (c_obs c) ++ check_dirm_steps dinit (c_ops c) (c_obs c)
+         | TSubMem => check_sub_steps MemFS (c_root c) init_st (c_ops c) (c_via c) (c_obs c)
+         | TSubTar => check_sub_steps TarFS (c_root c) init_st (c_ops c) (c_via c) (c_obs c)
          end).
 
 (* how many steps of a case lie inside the envelope (evidence only) *)
